@@ -9,8 +9,7 @@ Requests
 * `trace <rate:16hex> <limit_ns> <t1> <t2> …`  (clock readings of the clock-reading polls, ns since `new`)
     → `<I0> (<calls> <last_check> <interval_instructions> <timed_out:0|1> <sound:0|1>) …`
 * `deliver <t|e> (<code> <handler>…) …`   (frames, top first; `t` = timeout, `e` = ordinary error;
-    code 0 = plain frame, 1 = barrier frame (entry boundary), 2 = barrier frame whose native caller
-    replaces every error by a string error)
+    code 0 = plain frame, 1 = barrier frame (entry boundary))
     → `caught <handler> <frames_left>` | `escaped timeout` | `escaped other` (what the host receives)
 -/
 import KotoVerif.Common.Proto
@@ -47,7 +46,7 @@ def parseFrame : Sexp → Option Frame
   | .list (b :: hs) => do
     let bb ← b.nat?
     let hs' ← hs.mapM Sexp.nat?
-    pure { catches := hs', barrier := bb == 1 || bb == 2, stringifies := bb == 2 }
+    pure { catches := hs', barrier := bb == 1 }
   | _ => none
 
 def deliveryStr : Delivery → String
